@@ -508,6 +508,11 @@ func (in *Interp) reportViolation(kind, msg, site string) {
 			v.Scheduled = true
 		}
 	}
+	if len(in.gs) > 1 {
+		// several goroutines were live: the outcome may depend on the (legal) order in which the
+		// engine ran them, which a native run cannot be forced to repeat
+		v.Scheduled = true
+	}
 	if ok {
 		v.Inputs = inputs
 		v.UFTable = ufs
